@@ -52,7 +52,9 @@ ASSUMPTIONS = [
 RULE = ("seeded op lists (add / add_from_str / parse_rxns / remove_rxn / remove_species / merge / copy / set_mol_map / "
         "assign_mol, incl. legitimately failing ops and explicit ids that look generated) over up to 3 live networks and "
         "per-run alphabets of 3-8 species, 2-4 rules, 4-60 ops; after every op all four indices, species set, mol labels "
-        "and dense+sparse incidence matrix of every live network are compared with a dict model. A run is non-trivial if "
+        "and dense+sparse incidence matrix of every live network are compared with a dict model. Sides are given as mappings, pairs, "
+        "label lists, RXNSide objects, one-shot generators / zip objects, label records as mapping keys, counts as strings / floats "
+        "(clean refusal of the last three accepted). A run is non-trivial if "
         ">=1 failing op ('fault') fired and >=1 probe was hit; distinct = distinct event-log digests")
 
 EXPLICIT_IDS = ["r_1", "r_2", "r_3", "R1_1", "R1_2", "R2_1", "e1", "x", "A", "r_1_1", "r_10"]
